@@ -3,7 +3,7 @@ package main
 import (
 	"context"
 	"fmt"
-	"path"
+	"os"
 	"strings"
 
 	"github.com/pentops/j5/gen/j5/list/v1/list_j5pb"
@@ -226,6 +226,62 @@ func stageKind(status string) int {
 // package (dp_schemas) are taken from the observed source API (the declaration model does not translate j5s
 // types), so that the hypotheses of C16_full can be evaluated on the package (valid_package_b).
 // extra reports declarations that add services of their own (entities, non-publish topics).
+// declFTy translates the declared type of a property (j5s source) to the model's field type. ok = false for types
+// declared in place (inline object / oneof / enum), whose schema gets a generated nested name.
+func declFTy(pkg string, pr gProp) (FTy, bool) {
+	var tr func(t gTy) (FTy, bool)
+	tr = func(t gTy) (FTy, bool) {
+		if t.Inline != nil {
+			return FTy{}, false
+		}
+		switch t.Kind {
+		case "object", "oneof", "enum":
+			rp, name := pkg, t.Ref
+			if k := strings.LastIndex(t.Ref, "."); k >= 0 {
+				rp, name = t.Ref[:k], t.Ref[k+1:]
+			}
+			return FTy{Alt: t.Kind, Pkg: rp, Name: name}, true
+		case "array", "map":
+			if t.Item == nil {
+				return FTy{}, false
+			}
+			it, ok := tr(*t.Item)
+			if !ok {
+				return FTy{}, false
+			}
+			if t.Item.Kind == "key" && (t.Item.Spec == "" || t.Item.Spec == "key") {
+				// a key without format as array item / map value reads back as string: the array annotation replaces the
+				// item's (j5.ext.v1.field).key, the map entry's value options are not printed (known: property=C04 lines
+				// "array of key without format", "options on the value field of a map entry")
+				it = FTy{Alt: "string"}
+			}
+			return FTy{Alt: t.Kind, Item: &it}, true
+		}
+		return FTy{Alt: t.Kind}, true
+	}
+	out, ok := tr(pr.Ty)
+	if ok && pr.Flatten && out.Alt == "object" {
+		out.Alt = "flatten"
+	}
+	return out, ok
+}
+
+// declSchema translates a declared top-level schema; ok = false when a property type does not translate.
+func declSchema(pkg string, gs gSchema) (Schema, bool) {
+	out := Schema{Pkg: pkg, Name: gs.Name, Kind: gs.Kind}
+	if gs.Kind == "enum" {
+		return out, true
+	}
+	for _, pr := range gs.Props {
+		t, ok := declFTy(pkg, pr)
+		if !ok {
+			return Schema{}, false
+		}
+		out.Props = append(out.Props, Prop{JSON: pr.Name, Ty: t})
+	}
+	return out, true
+}
+
 func coqDeclPackage(p *gPackage, im *Img) (term string, extra bool) {
 	byKey := map[[2]string]Schema{}
 	for _, s := range im.Schemas {
@@ -241,7 +297,14 @@ func coqDeclPackage(p *gPackage, im *Img) (term string, extra bool) {
 		q := make([]string, len(ps))
 		for i, pr := range ps {
 			ty := "TScalar \"any\""
-			if t, ok := obs[pr.Name]; ok {
+			if t, ok := declFTy(p.Pkg, pr); ok {
+				// the type as the j5s source declares it (translated here, not read from the compiler's output)
+				ty = coqFTy(t)
+				if o, ok2 := obs[pr.Name]; ok2 && coqFTy(o) != ty && os.Getenv("VERIF_DEBUG_TYPES") != "" {
+					fmt.Fprintf(os.Stderr, "TYPEDIFF %s.%s %s: declared %+v j5s=%s observed %s\n", key[0], key[1], pr.Name, t, pr.Ty.j5s(), coqFTy(o))
+				}
+			} else if t, ok := obs[pr.Name]; ok {
+				// inline object / oneof / enum: the nested schema's generated name is taken from the observed source API
 				ty = coqFTy(t)
 			}
 			q[i] = fmt.Sprintf("{| p_json := %s; p_ty := %s |}", coqStr(pr.Name), ty)
@@ -252,13 +315,15 @@ func coqDeclPackage(p *gPackage, im *Img) (term string, extra bool) {
 	for i, sv := range p.Services {
 		ms := make([]string, len(sv.Methods))
 		for k, m := range sv.Methods {
-			full := path.Join(sv.BasePath, m.Path)
 			resp := "None"
 			if !m.NoResp {
 				resp = "(Some " + props(m.Resp, [2]string{p.Pkg + ".service", m.Name + "Response"}) + ")"
 			}
 			ms[k] = fmt.Sprintf("{| df_name := %s; df_verb := %d; df_parts := %s; df_req := %s; df_resp := %s |}",
-				coqStr(m.Name), verbArm[strings.ToLower(m.Verb)], coqStrs(strings.Split(full, "/")),
+				coqStr(m.Name), verbArm[strings.ToLower(m.Verb)],
+				// the full path is computed by the model of Go's path.Join (cmpa's model/J5sWalk.v path_join, tied to the
+				// compiler by C02's streams) from the declared basePath and httpPath: sourcewalk/service.go resolvedPath
+				fmt.Sprintf("(split_on SLASH (J5sWalk.path_join %s %s))", coqStr(sv.BasePath), coqStr(m.Path)),
 				props(m.Req, [2]string{p.Pkg + ".service", m.Name + "Request"}), resp)
 		}
 		svcs[i] = fmt.Sprintf("(%s, [%s])", coqStr(sv.Name), strings.Join(ms, ";"))
@@ -266,7 +331,8 @@ func coqDeclPackage(p *gPackage, im *Img) (term string, extra bool) {
 	var tops []string
 	for _, tp := range p.Topics {
 		if tp.Kind == "publish" || tp.Kind == "" {
-			tops = append(tops, fmt.Sprintf("{| dt_name := %s; dt_msgs := %s |}", coqStr(tp.Name), coqStrs(tp.Messages)))
+			// the source-level declaration: the model derives the service name (ToCamel) and the name of an unnamed message
+			tops = append(tops, fmt.Sprintf("{| st_name := %s; st_named := %s |}", coqStr(tp.Name), coqStrs(tp.Messages)))
 		} else {
 			extra = true
 		}
@@ -274,13 +340,26 @@ func coqDeclPackage(p *gPackage, im *Img) (term string, extra bool) {
 	if p.Entity != nil {
 		extra = true
 	}
+	// the declared objects / oneofs / enums: built from the j5s declaration when all their property types translate
+	// (declFTy), else (a property declared in place, schemas an entity or a topic expands to) copied from the observed API
+	declared := map[string]gSchema{}
+	for _, gs := range p.Schemas {
+		declared[gs.Name] = gs
+	}
 	var others []string
 	for _, s := range im.Schemas {
-		if !method[[2]string{s.Pkg, s.Name}] {
-			others = append(others, coqSchema(s))
+		if method[[2]string{s.Pkg, s.Name}] {
+			continue
 		}
+		if gs, ok := declared[s.Name]; ok && s.Pkg == p.Pkg {
+			if src, ok := declSchema(p.Pkg, gs); ok {
+				others = append(others, coqSchema(src))
+				continue
+			}
+		}
+		others = append(others, coqSchema(s))
 	}
-	term = fmt.Sprintf("{| dp_pkg := %s; dp_services := [%s]; dp_topics := [%s]; dp_schemas := [%s] |}",
+	term = fmt.Sprintf("{| dp_pkg := %s; dp_services := [%s]; dp_topics := map (topic_of_source Strcase.to_camel) [%s]; dp_schemas := [%s] |}",
 		coqStr(p.Pkg), strings.Join(svcs, ";"), strings.Join(tops, ";"), strings.Join(others, ";\n    "))
 	return term, extra
 }
